@@ -1,4 +1,5 @@
 import PV.Expr.Syntax
+import PV.C11.Kinds
 import PV.C11.Lexer
 /-
   C11 — reference parser `parseRef` for the expression fragment, written from the grammar
@@ -630,9 +631,17 @@ def parseAtom : Nat → List Tok → PR Expr
   | f + 1, .str s u :: r => parseStrings f (.str s u :: r)
   | f + 1, .bytes b :: r => parseStrings f (.bytes b :: r)
   | f + 1, .fstr q t rw b :: r => parseStrings f (.fstr q t rw b :: r)
-  -- lists
-  | _ + 1, .op .lsqb :: .op .rsqb :: r => some (.list [], r)
-  | f + 1, .op .lsqb :: r =>
+  | f + 1, .op .lsqb :: r => parseListAtom f r
+  | f + 1, .op .lpar :: r => parseParenAtom f r
+  | f + 1, .op .lbrace :: r => parseBraceAtom f r
+  | _ + 1, _ => none
+termination_by structural f => f
+
+/-- after `[`: list display or list comprehension -/
+def parseListAtom : Nat → List Tok → PR Expr
+  | 0, _ => none
+  | _ + 1, .op .rsqb :: r => some (.list [], r)
+  | f + 1, r =>
     (match parseStarOrNamed f r with
      | some (e, r1) =>
        if atCompFor r1 then
@@ -644,18 +653,15 @@ def parseAtom : Nat → List Tok → PR Expr
           | some ((es, _), r2) => some (.list (e :: es), r2)
           | none => none)
      | none => none)
-  -- parentheses
-  | _ + 1, .op .lpar :: .op .rpar :: r => some (.tuple [], r)
-  | f + 1, .op .lpar :: .kw .yield :: .kw .from :: r =>
-    (match parseTest f r with
-     | some (e, .op .rpar :: r') => some (.yieldFrom e, r')
-     | _ => none)
-  | _ + 1, .op .lpar :: .kw .yield :: .op .rpar :: r => some (.yield none, r)
-  | f + 1, .op .lpar :: .kw .yield :: r =>
-    (match parseTestList f r with
-     | some (e, .op .rpar :: r') => some (.yield (some e), r')
-     | _ => none)
-  | f + 1, .op .lpar :: r =>
+termination_by structural f => f
+
+/-- after `(`: empty tuple, yield expression, generator expression, parenthesised expression or
+    tuple -/
+def parseParenAtom : Nat → List Tok → PR Expr
+  | 0, _ => none
+  | _ + 1, .op .rpar :: r => some (.tuple [], r)
+  | f + 1, .kw .yield :: r => parseYieldAtom f r
+  | f + 1, r =>
     (match parseStarOrNamed f r with
      | some (e, r1) =>
        if atCompFor r1 then
@@ -669,16 +675,34 @@ def parseAtom : Nat → List Tok → PR Expr
           | some ((es, _), r2) => some (.tuple (e :: es), r2)
           | none => none)
      | none => none)
-  -- braces
-  | _ + 1, .op .lbrace :: .op .rbrace :: r => some (.dict [], r)
-  | f + 1, .op .lbrace :: .op .dstar :: r =>
+termination_by structural f => f
+
+/-- after `( yield`: `YieldExpr ")"` -/
+def parseYieldAtom : Nat → List Tok → PR Expr
+  | 0, _ => none
+  | f + 1, .kw .from :: r =>
+    (match parseTest f r with
+     | some (e, .op .rpar :: r') => some (.yieldFrom e, r')
+     | _ => none)
+  | _ + 1, .op .rpar :: r => some (.yield none, r)
+  | f + 1, r =>
+    (match parseTestList f r with
+     | some (e, .op .rpar :: r') => some (.yield (some e), r')
+     | _ => none)
+termination_by structural f => f
+
+/-- after `{`: dict display, dict comprehension, set display or set comprehension -/
+def parseBraceAtom : Nat → List Tok → PR Expr
+  | 0, _ => none
+  | _ + 1, .op .rbrace :: r => some (.dict [], r)
+  | f + 1, .op .dstar :: r =>
     (match parseBin 0 f r with
      | some (v, r1) =>
        (match parseDictRest f r1 with
         | some (is, r2) => some (.dict (.mk none v :: is), r2)
         | none => none)
      | none => none)
-  | f + 1, .op .lbrace :: r =>
+  | f + 1, r =>
     let first : Option (Expr × Bool × List Tok) :=      -- (element, may be a dict key, rest)
       match r with
       | .op .star :: _ => (parseStarOrNamed f r).map (fun (e, r') => (e, false, r'))
@@ -708,7 +732,6 @@ def parseAtom : Nat → List Tok → PR Expr
           | some ((es, _), r2) => some (.set (e :: es), r2)
           | none => none)
      | none => none)
-  | _ + 1, _ => none
 termination_by structural f => f
 
 /-- after one element of a bracketed display: `("," TestOrStarNamedExpr)* ","? close`.
@@ -1009,5 +1032,130 @@ def fuelFor (ts : List Tok) : Nat := 24 * (ts.map tokWeight).sum + 64
 
 /-- whole-input parse in expression mode (what `Expr::parse` does) -/
 def parseExpression (ts : List Tok) : Option Expr := parseTop (fuelFor ts) ts
+
+
+/-! ## which children need parentheses, derived from the grammar
+
+  Levels number the nonterminals of the chain:
+  1 `Test`, 2 `OrTest`, 3 `AndTest`, 4 `NotTest`, 5 `Comparison`, 6 `Expression`,
+  7 `XorExpression`, 8 `AndExpression`, 9 `ShiftExpression`, 10 `ArithmeticExpression`, 11 `Term`,
+  12 `Factor`, 13 `Power`, 14 `AtomExpr`, 15 `AtomExpr2` / `Atom`.
+  Each nonterminal derives itself-level productions and everything of a higher level. -/
+
+/-- the highest nonterminal of the chain that derives an expression of this kind without
+    surrounding parentheses (`none`: not derivable from `Test` at all) -/
+def bareLevel : Kind → Option Nat
+  | .tuple => none              -- only through `GenericList` / `SubscriptList` / `ExpressionList`
+  | .namedExpr => none          -- only through `NamedExpressionTest`
+  | .lambda => some 1           -- Test: LambdaDef
+  | .ifExp => some 1            -- Test: OrTest "if" OrTest "else" Test
+  | .boolOp .or => some 2       -- OrTest
+  | .boolOp .and => some 3      -- AndTest
+  | .unary .not => some 4       -- NotTest
+  | .compare => some 5          -- Comparison
+  | .binOp .bitOr => some 6     -- Expression
+  | .binOp .bitXor => some 7    -- XorExpression
+  | .binOp .bitAnd => some 8    -- AndExpression
+  | .binOp .lShift => some 9    -- ShiftExpression
+  | .binOp .rShift => some 9
+  | .binOp .add => some 10      -- ArithmeticExpression
+  | .binOp .sub => some 10
+  | .binOp .mult => some 11     -- Term
+  | .binOp .matMult => some 11
+  | .binOp .div => some 11
+  | .binOp .mod => some 11
+  | .binOp .floorDiv => some 11
+  | .unary _ => some 12         -- Factor: UnaryOp Factor
+  | .binOp .pow => some 13      -- Power: AtomExpr "**" Factor
+  | .await => some 14           -- AtomExpr: "await" AtomExpr2
+  | .atom => some 15
+  | .starred => none
+  | .slice => none
+
+/-- the nonterminal the grammar has at this child position, as a level of the chain.
+    For the operands of a left-recursive production `X := X op Y` the left slot is `X`, the right
+    slot `Y` (next level); `Power := AtomExpr "**" Factor`. -/
+def slotNT : Slot → Nat
+  | .top => 1                           -- TestList: TestOrStarExpr
+  | .boolOperand .or => 3               -- (AndTest "or")+ AndTest
+  | .boolOperand .and => 4              -- (NotTest "and")+ NotTest
+  | .unaryOperand .not => 4             -- "not" NotTest
+  | .unaryOperand _ => 12               -- UnaryOp Factor
+  | .cmpLeft => 6                       -- Expression (CompOp Expression)+
+  | .cmpRight => 6
+  | .binLeft o =>
+    (match bareLevel (.binOp o) with
+     | some 13 => 14                    -- Power: AtomExpr "**" …
+     | some l => l
+     | none => 15)
+  | .binRight o =>
+    (match bareLevel (.binOp o) with
+     | some 13 => 12                    -- Power: … "**" Factor
+     | some l => l + 1
+     | none => 15)
+  | .awaitOperand => 15                 -- "await" AtomExpr2
+  | .lambdaBody => 1                    -- ":" Test
+  | .lambdaDefault => 1                 -- ParameterDef: "=" Test
+  | .ifBody => 2                        -- OrTest "if" …
+  | .ifTest => 2                        -- … "if" OrTest "else" …
+  | .ifOrelse => 1                      -- … "else" Test
+  | .dictKey => 1                       -- DictEntry: Test ":" Test
+  | .dictValue => 1
+  | .dictUnpack => 6                    -- DictElement: "**" Expression
+  | .setElt => 1                        -- TestOrStarNamedExpr
+  | .listElt => 1
+  | .tupleElt => 1
+  | .subTupleElt => 1                   -- Subscript: TestOrStarNamedExpr | slice
+  | .listCompElt => 1                   -- TestOrStarNamedExpr
+  | .setCompElt => 1                    -- NamedExpressionTest
+  | .genExpElt => 1
+  | .dictCompKey => 1                   -- DictEntry
+  | .dictCompValue => 1
+  | .compTarget => 6                    -- ExpressionList: Expression | StarExpr
+  | .compIter => 2                      -- "in" OrTest
+  | .compIf => 2                        -- ComprehensionIf: "if" OrTest
+  | .yieldValue => 1                    -- "yield" TestList
+  | .yieldFromValue => 1                -- "yield" "from" Test
+  | .callFunc => 15                     -- AtomExpr2 "(" …
+  | .callArg => 1                       -- FunctionArgument: NamedExpressionTest CompFor?
+  | .callKwValue => 1                   -- Identifier "=" Test
+  | .callDstarValue => 1                -- "**" Test
+  | .attrValue => 15                    -- AtomExpr2 "." Identifier
+  | .subValue => 15                     -- AtomExpr2 "[" …
+  | .subSlice => 1                      -- SubscriptList
+  | .sliceLower => 1                    -- Test? ":" Test? SliceOp?
+  | .sliceUpper => 1
+  | .sliceStep => 1
+  | .starredValue => 6                  -- StarExpr: "*" Expression  (a call argument "*" Test is laxer)
+  | .namedValue => 1                    -- Identifier ":=" Test
+  | .fstringField => 1                  -- the field text is parsed as "(" … ")"
+
+/-- slots whose production accepts a bare comma list (`GenericList`, `SubscriptList`,
+    `ExpressionList`) -/
+def slotAllowsBareTuple : Slot → Bool
+  | .top | .subSlice | .compTarget | .yieldValue | .fstringField => true
+  | _ => false
+
+/-- slots whose production is `NamedExpressionTest` (or contains `NamedOrStarExpr`); not the f-string
+    field, where the `:` of `:=` would start the format spec -/
+def slotAllowsBareNamed : Slot → Bool
+  | .setElt | .listElt | .tupleElt | .subTupleElt | .listCompElt | .setCompElt | .genExpElt
+  | .callArg | .subSlice => true
+  | _ => false
+
+/-- The grammar cannot derive a child of kind `k` in slot `s` unless it is parenthesised. -/
+def needsParens (s : Slot) (k : Kind) : Bool :=
+  match k with
+  | .tuple => !slotAllowsBareTuple s
+  | .namedExpr => !slotAllowsBareNamed s
+  | .starred => false
+  | .slice => false
+  | .lambda =>
+    -- inside a replacement field a `:` outside brackets starts the format spec (`string.rs`)
+    s == .fstringField || decide (1 < slotNT s)
+  | k =>
+    match bareLevel k with
+    | some l => decide (l < slotNT s)
+    | none => true
 
 end PV.C11
